@@ -122,12 +122,16 @@ class SeqRenderer:
                 ops.append("rWr %d %d %s" % (o["h"], 0 if o["k"] == "add" else 1, nlist([self.trip(t) for t in o["triples"]])))
                 obs.append(self.ans(o["k"], o["memo"]))
             else:
-                ops.append("rR %d %s" % (o["h"], self.q(o["q"])))
+                if o.get("cancel") is not None:
+                    ops.append("rC %d %s %d" % (o["h"], self.q(o["q"]), o["cancel"]))
+                else:
+                    ops.append("rR %d %s" % (o["h"], self.q(o["q"])))
                 obs.append(self.ans("read", o["memo"], o["q"]["op"]))
                 if o["q"]["op"] != "Exist":
                     self.lo_table[self.lo(o["q"]["lo"])] = self.s(o["lostr"])
             lg += [self.fwd(e) for e in o["fwd"]]
-        return "mkRC [%s]\n  [%s]\n  [%s]" % ("; ".join(ops), "; ".join(obs), "; ".join(lg))
+        leak = any(o.get("leak") for o in c["ops"])
+        return "mkRC [%s]\n  [%s]\n  %s [%s]" % ("; ".join(ops), "; ".join(obs), "true" if leak else "false", "; ".join(lg))
 
 
 def seq_model_mismatches(ctx, name, cases):
@@ -474,7 +478,9 @@ def run(ctx):
     seq = hmemo(["-mode", "seq", "-n", str(nseq), "-seed", str(ctx.seed)])
     nflt = 600 if thorough else 80
     flt = hmemo(["-mode", "seq", "-n", str(nflt), "-seed", str(ctx.seed + 7919), "-faults"])
-    allseq = seq + flt
+    ncan = 400 if thorough else 45
+    can = hmemo(["-mode", "seq", "-n", str(ncan), "-seed", str(ctx.seed + 104729), "-cancels"], timeout=1500)
+    allseq = seq + flt + can
     for c in allseq:
         for o in c["ops"]:
             o["fwd"] = o.get("fwd") or []
@@ -487,7 +493,7 @@ def run(ctx):
     for lo, s in lobad[:2]:
         ctx.violation({"kind": "LookupOptions.String-differs-from-options_key", "lo": lo, "observed": s,
                        "explain": "the cache-key material printed by storage.LookupOptions.String is not what the model computes"})
-    nreads = nhits = nerr = nempty = ndiff = 0
+    nreads = nhits = nerr = nempty = ndiff = ncancel = nleak = 0
     opmix, seen = {}, set()
     unexplained = []
     for c in allseq:
@@ -506,6 +512,21 @@ def run(ctx):
                 nontriv = True
             same = (o["memo"]["elems"] == o["plain"]["elems"] and o["memo"]["bool"] == o["plain"]["bool"]
                     and o["memo"]["err"] == o["plain"]["err"])
+            if o.get("cancel") is not None:
+                ncancel += 1
+                # the caller stopped after k elements: it is entitled to the first k elements of the wrapped store's answer
+                want = o["plain"]["elems"][:o["cancel"]]
+                if o["memo"]["elems"] != want and classify_seq(ops, i, fixed_offset) not in open_classes:
+                    unexplained.append({"class": "cancelled-lookup-delivered-other-elements", "history": c, "op": i})
+                if o.get("leak"):
+                    nleak += 1
+                    # narrow: a miss, cancelled with at least two elements of the answer not yet handed over
+                    if "cancelled_miss_not_drained" in open_classes and o["fwd"] and \
+                       len(o["plain"]["elems"]) >= o["cancel"] + 2:
+                        reproduced.setdefault("cancelled_miss_not_drained", {"history": c["id"], "seed": c["seed"], "op": i})
+                    else:
+                        unexplained.append({"class": "forwarded-lookup-left-blocked", "history": c, "op": i})
+                continue
             if same:
                 continue
             if c["faults"]:
@@ -547,13 +568,26 @@ def run(ctx):
     batch = Batch(ctx, "cases_c19_small")
     tin = tiny_in + [(None, h) for _, h in corpus if "ops" in h]
     tres = hmemo(["-mode", "tiny"], inp="\n".join(json.dumps(h) for _, h in tin) + "\n") if tin else []
-    tmodel = [r for r in tres if not r["hist"].get("read_faults")]   # the tiny store has no failures: replayed in Coq below
+    def plain_tiny(r):
+        return not r["hist"].get("read_faults") and not any(o.get("cancel") is not None for o in r["hist"]["ops"])
+    tmodel = [r for r in tres if plain_tiny(r)]   # failures / cancellations are replayed in Coq through the seq histories
     if tmodel:
         tiny_block(batch, "tiny", tmodel)
     for (f, _), r in zip(tin, tres):
         differs = [i for i, (a, b) in enumerate(zip(r["memo"], r["plain"]))
-                   if a != b and not (r["hist"].get("read_faults") and a["err"])]
-        if f is not None:
+                   if a != b and not (r["hist"].get("read_faults") and a["err"])
+                   and not (r["hist"]["ops"][i].get("cancel") is not None and a["list"] == b["list"][:r["hist"]["ops"][i]["cancel"]])]
+        if f is None and r["leak_at"] >= 0 and "cancelled_miss_not_drained" not in open_classes:
+            ctx.violation({"kind": "corpus-history-leaves-lookup-blocked", "history": r})
+        if f is not None and f["class"] == "cancelled_miss_not_drained":
+            if r["leak_at"] >= 0 and r["write_blocked"]:
+                ctx.known("%s (%s): after operation %d of the witness history (a listing cancelled by its caller after %d element) the "
+                          "forwarded lookup stays blocked holding the wrapped graph's read lock: AddTriples through the wrapper did not "
+                          "return within 2 s" % (f["id"], f["class"], r["leak_at"], r["hist"]["ops"][r["leak_at"]]["cancel"]))
+                reproduced[f["class"]] = True
+            else:
+                ctx.notes.append("NOTE: finding %s no longer reproduces" % f["id"])
+        elif f is not None:
             if differs:
                 ctx.known("%s (%s): read %d of the witness history returns %s through the memoizer, %s from the wrapped store" % (
                     f["id"], f["class"], differs[0], json.dumps(r["memo"][differs[0]]["list"] or r["memo"][differs[0]]["bool"]),
@@ -665,7 +699,8 @@ def run(ctx):
                        "was served from the cache; interleavings: distinct observable outcomes per scenario (every complete "
                        "schedule is executed and compared, %d in total)" % nsched)
     ctx.cov["samples"] = [{"history": allseq[0]["id"], "ops": [{k: o.get(k) for k in ("h", "k", "q", "memo")} for o in allseq[0]["ops"][:4]]}]
-    ctx.cov["distribution"] = {"histories": len(seq), "fault_histories": len(flt), "reads": nreads, "cache_hits": nhits,
+    ctx.cov["distribution"] = {"histories": len(seq), "fault_histories": len(flt), "cancel_histories": len(can),
+                               "cancelled_reads": ncancel, "cancelled_reads_leaving_inner_lookup_blocked": nleak, "reads": nreads, "cache_hits": nhits,
                                "error_answers": nerr, "empty_answers": nempty, "reads_differing_from_plain_store": ndiff,
                                "op_mix": opmix, "interleaving_scenarios": outcomes, "stale_reads_by_class": stale_by_class}
     if nreads and (nerr > 0.3 * nreads or nempty > 0.4 * nreads):
